@@ -478,6 +478,23 @@ def run(ctx) -> None:
              from_npz, from_npz.node, f"WannierData.to_npz writes the symmetrizer as '.{sext}.npz' but from_npz reads {lit}",
              stmt="symmetrizer extension")
 
+    # to_npz(files=[…]): every requested name the container holds is written — the request may only be filtered against the container itself
+    # (`if f in self._files`), not against a table of file classes that lacks the objects from_npz restores separately (symmetrizer, mmn_ud, soc, …)
+    tz_ = idx.function(W90 + "wandata.py", "WannierData.to_npz")
+    fp_ = next((p_ for p_ in tz_.params if p_ == "files"), None)
+    if fp_ is not None:
+        r4.instance(f"{tz_.short}: files= request")
+        for lp_ in [x for x in ast.walk(tz_.node) if isinstance(x, ast.For) and norm(x.iter) == fp_]:
+            for g_ in [x for x in ast.walk(lp_) if isinstance(x, ast.If)]:
+                t_ = g_.test
+                tests_ = [t_] + ([v_ for v_ in t_.values] if isinstance(t_, ast.BoolOp) else [])
+                for c_ in tests_:
+                    if isinstance(c_, ast.Compare) and len(c_.ops) == 1 and isinstance(c_.ops[0], (ast.NotIn, ast.In)) and norm(c_.comparators[0]) not in ("self._files", "self._files.keys()") \
+                            and any(isinstance(x, (ast.Continue,)) for b_ in (g_.body if isinstance(c_.ops[0], ast.NotIn) else g_.orelse) for x in ast.walk(b_)):
+                        r4.violation(tz_, g_, f"`if {norm1(g_.test)}: … continue` drops requested files that are not in `{norm1(c_.comparators[0])}`; that table has no entry for the "
+                                     f"objects stored outside it (symmetrizer, mmn_ud/mmn_du, soc), so to_npz(files=[…, 'symmetrizer']) silently does not write them and the "
+                                     f"loaded container differs from the saved one")
+
     # the `irreducible` flag of a loaded container: "some file holds fewer k-points than the grid".  It is found file by file, so inside the
     # loop over the files it may only be raised (or accumulated with `or`), never recomputed from the file at hand alone
     FN_ = Sem(idx, from_npz)
